@@ -23,9 +23,10 @@ contract("tokens:TokenStream.expect", mutates=TS, requires=["ts_inv(self)", "all
     ensures=["ts_inv(self)", "self.current == self0.current"],
     raises_iff=[("JSONPathSyntaxError", "not any(self.current.type_ == t for t in typ)")], raises_ensures=["ts_inv(self)"], unfold=["py_eq"], props=["C05"])
 contract("tokens:TokenStream.expect_peek", mutates=TS, requires=["ts_inv(self)", "all(isinstance(t, TokenType) for t in typ)"],
-    ensures=["ts_inv(self)", "self.current == self0.current"], raises=["JSONPathSyntaxError"], raises_ensures=["ts_inv(self)"], props=["C05"])
+    ensures=["ts_inv(self)", "self.current == self0.current"],
+    raises_iff=[("JSONPathSyntaxError", "not any(ts_next(self).type_ == t for t in typ)")], raises_ensures=["ts_inv(self)"], props=["C05"])
 contract("tokens:TokenStream.expect_peek_not", mutates=TS, requires=["ts_inv(self)", "isinstance(typ, TokenType)"],
-    ensures=["ts_inv(self)", "self.current == self0.current"], raises=["JSONPathSyntaxError"], raises_ensures=["ts_inv(self)"], props=["C05"])
+    ensures=["ts_inv(self)", "self.current == self0.current"], raises_iff=[("JSONPathSyntaxError", "ts_next(self).type_ == typ")], raises_ensures=["ts_inv(self)"], unfold=["py_eq"], props=["C05"])
 
 P_REQ = ["wf_env(self.env)", "ts_inv(stream)"]
 P_ENS = ["parsed_expr(result, self.env)", "ts_inv(stream)"]
